@@ -473,3 +473,133 @@ def witnesses(run, drv):
         run.notes.append("excluded point td[..., ...]: accepted")
     except Exception as e:
         run.notes.append(f"excluded point td[..., ...]: tensordict raises {type(e).__name__} (torch 2.14 accepts x[..., ...]); outside the property's grammar")
+
+
+# ----------------------------------------------------------------------------- collection values with a nested tensordict
+def gen_colln_case(rng):
+    """td with one nested tensordict n0 (extra batch dims `ex`, leaves m0..); value = TensorDict({n0: TensorDict(entries, vb + cbx)}, vb)"""
+    bs = G.gen_bs(rng)
+    idx = G.gen_index_adv(rng, bs) if rng.random() < 0.2 else G.gen_index(rng, bs, p_bad=0.04, p_overrun=0.04)
+    if sum(1 for t in G.items_of(idx) if t == G.ELL) > 1:
+        return None
+    ex = rng.choice([[], [2], [1], [2, 3]])
+    feats = [[]] + ([[2]] if rng.random() < 0.5 else [])
+    try:
+        sb = list(torch.zeros(bs)[G.index_py(idx)].shape)
+    except Exception:
+        sb = [rng.randint(1, 3) for _ in range(rng.randint(0, 2))]
+    r = rng.random()
+    if r < 0.5:
+        vb, how = list(sb), "exact"
+    elif r < 0.7 and sb:
+        vb, how = sb[rng.randint(1, len(sb)):], "suffix"
+    elif r < 0.8:
+        vb, how = [], "batchless"
+    else:
+        vb, how = [rng.randint(0, 3) for _ in range(rng.randint(0, 2))], "random"
+    cbx = list(ex) if rng.random() < 0.75 else rng.choice([[], [2], [3]])
+    if how == "batchless" and rng.random() < 0.6:
+        cbx = list(sb) + list(ex)
+    entries = []
+    for k, f in enumerate(feats):
+        if rng.random() < 0.8:
+            sh = vb + cbx + (f if rng.random() < 0.9 else [rng.randint(1, 3)])
+            entries.append((k, sh))
+    if not entries:
+        entries.append((0, vb + cbx))
+    if rng.random() < 0.2:
+        entries.append(("new", vb + cbx + [2]))
+    return {"bs": bs, "ex": ex, "feats": feats}, idx, vb, cbx, entries, how
+
+
+def colln_sx(spec, idx, vb, cbx, entries):
+    leaves = "(leaves" + "".join(" " + S.shape_sx("f", f) for f in spec["feats"]) + ")"
+    es = "(" + " ".join(f"({t} {S.shape_sx('s', sh)})" for t, sh in entries) + ")"
+    return (f"(c03.setcolln {S.shape_sx('bs', spec['bs'])} {S.shape_sx('e', spec['ex'])} {leaves} {G.index_sx(idx)} "
+            f"{S.shape_sx('vb', vb)} {S.shape_sx('cbx', cbx)} {es})")
+
+
+def setcoll_nested(run, drv):
+    """td[idx] = TensorDict({n0: TensorDict(...)}) with n0 a nested tensordict of td: the recursion of __setitem__ into the nested
+    entry — correspondence with Td.setitemCollNested and the oracle (torch on every nested leaf, other leaves untouched)"""
+    from tensordict import TensorDict
+    rng = run.rng
+    n = 2000 if run.tier == "quick" else 15000
+    cases = [c for c in (gen_colln_case(rng) for _ in range(n)) if c is not None]
+    answers = S.ask_chunked(drv, [colln_sx(spec, idx, vb, cbx, entries) for spec, idx, vb, cbx, entries, how in cases])
+    for (spec, idx, vb, cbx, entries, how), a in zip(cases, answers):
+        m = parse_sx(a)
+        bs, ex = spec["bs"], spec["ex"]
+        run.case(("colln", json.dumps(spec), G.index_sx(idx), json.dumps(vb), json.dumps(cbx), json.dumps(entries)))
+        run.count("colln.kind", how)
+        names = {t: ("new" if t == "new" else f"m{t}") for t, _ in entries}
+        val = {names[t]: value_tensor(sh) for t, sh in entries}
+        try:
+            child = TensorDict(val, batch_size=vb + cbx)
+            vobj = TensorDict({"n0": child}, batch_size=vb)
+        except Exception:
+            run.count("colln.kind", "unbuildable")
+            continue
+        nested = TensorDict({f"m{k}": S.prov(bs + ex + f) for k, f in enumerate(spec["feats"])}, batch_size=bs + ex)
+        td = TensorDict({"l0": S.prov(bs), "n0": nested}, batch_size=bs)
+        before = {k: td.get(("n0", f"m{k}")).clone() for k in range(len(spec["feats"]))}
+        l0 = td.get("l0").clone()
+        try:
+            with time_limit(TL):
+                td[G.index_py(idx)] = vobj
+            sub = td.get("n0")
+            impl = ["ok"] + [[("new" if t == "new" else t), ["shape"] + list(sub.get(names[t]).shape), written_map(sub.get(names[t]))] for t, _ in entries]
+        except TimeoutError:
+            raise
+        except Exception as e:
+            impl = ["err", err_class(e)]
+        run.count("colln.outcome", S.outcome(impl) if S.outcome(impl) != "err" else "err-" + impl[1])
+        ci, cm = impl, m
+        dspec = {"bs": bs}
+        if has_duplicates(dspec, idx) and S.outcome(ci) == "ok" and S.outcome(cm) == "ok":
+            ci = ["ok"] + [[e[0], e[1], [-1 if x == -1 else 0 for x in e[2]]] for e in ci[1:]]
+            cm = ["ok"] + [[e[0], e[1], [-1 if x == -1 else 0 for x in e[2]]] for e in cm[1:]]
+        if S.outcome(ci) == "err" and S.outcome(cm) == "err":
+            run.corr("setitem_collection_nested", None, "err", "err")
+        else:
+            run.corr("setitem_collection_nested", {"td": spec, "idx": G.index_json(idx), "idx_raw": idx, "vb": vb, "cbx": cbx, "entries": entries}, ci, cm)
+        # oracle (accepted writes with a value of exactly the indexed batch): torch on every nested leaf; the rest untouched
+        site = "setitem-collection-nested"
+        case = {"mode": "write-collection-nested", "td": spec, "idx": idx, "idx_str": G.index_json(idx), "value_batch": vb, "child_extra": cbx, "entries": entries}
+        if S.outcome(impl) != "ok":
+            try:
+                torch.zeros(bs)[G.index_py(idx)]
+            except Exception:
+                run.oracle_ok(site)
+                continue
+            run.oracle_ok(site)      # a refused *value* is not judged (see setcoll)
+            continue
+        try:
+            torch.zeros(bs)[G.index_py(idx)]
+        except Exception as e:
+            run.oracle_fail(site, case, f"torch rejects this index on the batch shape ({err_class(e)}); the assignment was accepted", S.classify_accept(dspec, idx))
+            continue
+        probs = []
+        dup = has_duplicates(dspec, idx)
+        if not torch.equal(td.get("l0"), l0):
+            probs.append("l0 changed although the value has no entry for it")
+        for t, sh in entries:
+            if t == "new":
+                continue
+            e = before[t].clone()
+            try:
+                e[S.pad_for_leaf(idx, len(ex) + len(spec["feats"][t]))] = val[names[t]]
+            except Exception as ex2:
+                probs.append(f"torch rejects n0.m{t}[idx] = value ({err_class(ex2)}); the tensordict accepted it")
+                continue
+            got = td.get(("n0", f"m{t}"))
+            same = got.shape == e.shape and (torch.equal(got < 0, e < 0) if dup else torch.equal(got, e))
+            if not same:
+                probs.append(f"n0.m{t}: {got.reshape(-1).tolist()[:12]} expected {e.reshape(-1).tolist()[:12]}")
+        for k in range(len(spec["feats"])):
+            if all(t != k for t, _ in entries) and not torch.equal(td.get(("n0", f"m{k}")), before[k]):
+                probs.append(f"n0.m{k} changed although the value has no entry for it")
+        if probs:
+            run.oracle_fail(site, case, "; ".join(probs)[:500], "collection-nested-values:" + how)
+        else:
+            run.oracle_ok(site)
